@@ -232,7 +232,11 @@ Fixpoint ev (fuel : nat) (e : pexp) (at_ : atomicity) (pos : nat) (rest : str) {
 
 (** Fuel: the recursion depth is bounded by (iterations so far) + (nesting);
     every iteration and every nesting level consumes input. *)
-Definition peg_fuel (input : str) : nat := 64 + 24 * length input.
+(** pest itself has no fuel; the constants lie above the generic bound [PegFuel.peg_bound] of both
+    regenerated grammars (Proofs/PegFuelInst.v [l_peg_fuel_above_bound], PegFuelCalc.v), so PFuel is never
+    the answer of [parse_from] (C14_parse_never_fuel). Round 9: raised from 64 + 24 * length; by
+    [ev_mono_le] every non-PFuel answer is unchanged. *)
+Definition peg_fuel (input : str) : nat := 128 + 96 * length input.
 
 (** [Parser::parse(rule, input)]: the top rule from position 0, NonAtomic.
     Success does NOT require the input to be consumed. *)
